@@ -1,7 +1,7 @@
 (** C17 (sequential half): proofs over the *translated* union-find (gen/UFSeq.v). *)
 From Coq Require Import List Arith Lia PeanoNat Relations.
 Import ListNotations.
-Require Import Verif.Base.Res Verif.gen.UFSeq.
+Require Import Verif.Base.Res Verif.gen.UFSeq Verif.UF.Ops.
 
 Definition par (p : list nat) (x : nat) : nat := nth x p x.
 Definition Inv (p : list nat) : Prop := forall i, par p i <= i.
@@ -356,29 +356,6 @@ Qed.
 (* ------------------------------------------------------------------ *)
 (** * operation sequences *)
 
-Inductive op := OUnion (a b : nat) | OFind (a : nat) | OReset.
-
-(** fuel is supplied per step by the caller; the theorems say which fuel suffices *)
-Definition fuel_for (p : list nat) (o : op) : nat :=
-  match o with
-  | OUnion a b => Nat.max (length p) (S (Nat.max a b))
-  | OFind a => Nat.max (length p) (S a)
-  | OReset => 0
-  end.
-
-Definition step (p : list nat) (o : op) : Res (list nat) :=
-  match o with
-  | OUnion a b => bind (union (fuel_for p o) p a b) (fun '(p', _) => Ok p')
-  | OFind a => bind (find (fuel_for p o) p a) (fun '(p', _) => Ok p')
-  | OReset => Ok (reset p)
-  end.
-
-Fixpoint run (p : list nat) (ops : list op) : Res (list nat) :=
-  match ops with
-  | [] => Ok p
-  | o :: rest => bind (step p o) (fun p' => run p' rest)
-  end.
-
 (** connectivity of the union operations since the last reset *)
 Inductive conn : list op -> nat -> nat -> Prop :=
 | conn_refl ops a : conn ops a a
@@ -491,4 +468,20 @@ Proof.
   intros HI H. split.
   - exists r. split; auto. eapply root_idem; eauto.
   - intros y (r' & H1 & H2). rewrite (root_unique _ _ _ _ H H1). eapply root_le; eauto.
+Qed.
+
+(** the observing run used by the correspondence check is the same state machine *)
+Lemma step_obs_step p o : bind (step_obs p o) (fun '(p', _) => Ok p') = step p o.
+Proof.
+  destruct o as [a b|a|]; cbn [step_obs step]; auto.
+  - destruct (union _ p a b) as [[p' [x y]]| |]; reflexivity.
+  - destruct (find _ p a) as [[p' r]| |]; reflexivity.
+Qed.
+
+Lemma run_obs_run : forall ops p, bind (run_obs p ops) (fun '(p', _) => Ok p') = run p ops.
+Proof.
+  induction ops as [|o ops IH]; intros p; cbn [run_obs run bind]; auto.
+  rewrite <- step_obs_step.
+  destruct (step_obs p o) as [[p' obs]| |]; cbn [bind]; auto.
+  rewrite <- IH. destruct (run_obs p' ops) as [[p'' obs']| |]; reflexivity.
 Qed.
